@@ -62,6 +62,7 @@ void harness(void) {
   int left_shm = vk_shm_linked(SHM_SLOT), left_sem = vk_sem_linked(SEM_SLOT);
 
   /* recovery by a fresh process in P's place */
+  vk_no_rescuer = 1;            /* everybody else is dead: nothing in the clean-up may wait for a semaphore */
   vk_dead[0] = 0; vk_crash_at[0] = 0; vk_cur = 0;
   unsigned long s1 = (unsigned long) ND_RANGE(1, VK_SEGMAX), s2 = (unsigned long) ND_RANGE(1, VK_SEGMAX);
   PShm *s = p_shm_new("a", s1, ND_PERM(), NULL);
@@ -71,6 +72,7 @@ void harness(void) {
 #ifdef KF_DEMO_ZERO
   if (left_shm >= 0 && vk_shm_size(left_shm) == 0) { VKF(c != NULL, "recovery after a kill between shm_open and ftruncate: p_shm_new succeeds"); VASSUME(c != NULL); }
 #endif
+  vk_no_rescuer = 0;
   VASSERT(c != NULL, "recovery: creating the segment again succeeds");
   VASSUME(c != NULL);
   unsigned char *a = (unsigned char *) p_shm_get_address(c);
